@@ -9,6 +9,7 @@ import c09_adopt
 import c09_reopen
 import core
 import treeops as T
+import treetable
 
 
 def corpus(name):
@@ -121,6 +122,15 @@ def argument_forms():
                 "psd.extend(generator) lists %d layers, a plain list %d" % (len(psd._layers), len(plain)) if bad else None,
                 {"call": "psd.extend(x for x in [a, b])"}))
     w = T.build(("flat", "RGB", 8))
+    psd, a = w.objs[0], T._px(w.objs[0], "RGB", "it3", 1, 1)
+    plain = list(psd._layers)
+    psd[0:1] = (x for x in [a])
+    plain[0:1] = (x for x in [a])
+    bad = [id(x) for x in psd._layers] != [id(x) for x in plain]
+    out.append(("C09/setslice/iterator-consumed-by-check",
+                "psd[0:1] = generator lists %d layers, a plain list %d" % (len(psd._layers), len(plain)) if bad else None,
+                {"call": "psd[0:1] = (x for x in [a])"}))
+    w = T.build(("flat", "RGB", 8))
     psd = w.objs[0]
     plain = list(psd._layers)
     for name, f in (("del [::2]", lambda l: l.__delitem__(slice(None, None, 2))),
@@ -137,7 +147,11 @@ def argument_forms():
     return out
 
 
+SAVE_ALL = ("closing-groups", "sole-layer")
+
+
 def run(ctx: core.Run):
+    treetable.regenerate(ctx)
     ctx.prove(["PsdVerif.Props.C09"] + c09_reopen.modules(ctx))
     ctx.trusted_base += T.TRUSTED
     ctx.assumptions += T.ASSUME
@@ -156,7 +170,17 @@ def run(ctx: core.Run):
             for h in hs:
                 traces.append(T.run_history(recipe, h, check_fresh=False, check_inv=False))
             ctx.hist("exhaustive_histories", "%s depth %d" % (recipe[0], d), len(hs))
+    # directed families (treeops.directed_histories): the bulky ones are saved + reopened as a sample (with the
+    # exhaustive histories), the ones about what is written (closing groups, emptied documents) all of them
+    directed = T.directed_histories(rng, ctx.quick)
+    for fam, recipe, h in directed:
+        if fam not in SAVE_ALL:
+            traces.append(T.run_history(recipe, h, check_fresh=False, check_inv=False))
     n_exh = len(traces)
+    for fam, recipe, h in directed:
+        ctx.hist("directed_histories", fam)
+        if fam in SAVE_ALL:
+            traces.append(T.run_history(recipe, h, check_fresh=False, check_inv=False))
     # every single candidate operation on the documents with artboards / shared names; all of them are saved and reopened
     for recipe in T.NAMED_TREES if not ctx.quick else T.NAMED_TREES[:2]:
         hs = T.exhaustive_histories(recipe, 1, level=1)
@@ -174,6 +198,7 @@ def run(ctx: core.Run):
     # adopted layers, save + reopen of both documents; boundary worlds (mixed per-plane compression) first
     adopt_traces, adopt_other = c09_adopt.run_block(ctx, sys.modules[__name__])
     T.compare_with_model(ctx, traces + adopt_traces, what="C09")
+    treetable.correspond(ctx, traces + adopt_traces, "C09")
     T.coverage(ctx, traces + adopt_traces + adopt_other)
     T.report(ctx, traces + adopt_traces + adopt_other, props=("C09",))
     # save + reopen: after the corpus histories, after every walk, after a sample of the exhaustive histories
@@ -237,7 +262,7 @@ def run(ctx: core.Run):
                 "documents reopen with the same tree and, plane for plane, the pixels they have in memory."
                 % (depth, n_walks, max_len, len(recipes), len(chosen), ctx.extra.get("adopt_worlds", 0),
                    ctx.extra.get("adopt_histories", 0)))
-    ctx.notes += [
+    ctx.notes += treetable.NOTES + [
         "save_reopen (DESIGN C09) is evaluated on the real code only (oracle: save -> open -> compare); its Lean "
         "composition with the parse / flatten model (C08) and the record codec (C01) is pending",
         "pixels of adopted layers (harness/c09_adopt.py) are an oracle on the real code only: PixelLayer._convert is opaque "
